@@ -13,6 +13,21 @@ pub fn format_expr(expr: &SpannedExpr, max_columns: Option<usize>) -> String {
     format_expr_impl(expr, max_cols, 0)
 }
 
+/// Format a top-level statement. A statement that is not the first one and starts with `-` is
+/// parenthesised: on its own line it would be read as a continuation (a subtraction) of the
+/// statement before it.
+pub fn format_statement(expr: &SpannedExpr, max_columns: Option<usize>, is_first: bool) -> String {
+    guard_leading_minus(format_expr(expr, max_columns), is_first)
+}
+
+fn guard_leading_minus(formatted: String, is_first: bool) -> String {
+    if !is_first && formatted.starts_with('-') {
+        format!("({})", formatted)
+    } else {
+        formatted
+    }
+}
+
 /// Internal formatting implementation with indentation tracking
 fn format_expr_impl(expr: &SpannedExpr, max_cols: usize, indent: usize) -> String {
     #[cfg(feature = "verif-hooks")]
@@ -548,7 +563,7 @@ fn format_do_block_multiline(
 
     let mut result = "do {".to_string();
 
-    for stmt in statements {
+    for (index, stmt) in statements.iter().enumerate() {
         // Leading comments
         for comment in &stmt.leading {
             result.push('\n');
@@ -558,7 +573,10 @@ fn format_do_block_multiline(
         // Expression
         result.push('\n');
         result.push_str(&indent_str);
-        result.push_str(&format_expr_impl(&stmt.node, max_cols, inner_indent));
+        result.push_str(&guard_leading_minus(
+            format_expr_impl(&stmt.node, max_cols, inner_indent),
+            index == 0,
+        ));
         // Trailing comment
         if let Some(trailing) = &stmt.trailing {
             result.push_str("  ");
